@@ -123,3 +123,14 @@ func ZZRouterNICs(r *Router) []string {
 	}
 	return out
 }
+
+// ZZTBFQueued returns the destination addresses of the chunks still waiting in a token bucket filter's queue.
+func ZZTBFQueued(t *TokenBucketFilter) []string {
+	var out []string
+	t.queue.mutex.RLock()
+	defer t.queue.mutex.RUnlock()
+	for _, c := range t.queue.chunks {
+		out = append(out, c.DestinationAddr().String())
+	}
+	return out
+}
